@@ -931,11 +931,11 @@ impl<S: BitmapSlice + Send + Sync> FileSystem for PassthroughFs<S> {
         // Manually implement File::try_clone() by borrowing fd of data.file instead of dup().
         // It's safe because the `data` variable's lifetime spans the whole function,
         // so data.file won't be closed.
-        let f = unsafe { File::from_raw_fd(data.borrow_fd().as_raw_fd()) };
+        // The fd is only borrowed: never let this `File` close it, not even on the early error
+        // return below (a refused read must leave the handle usable, as in write()).
+        let mut f = ManuallyDrop::new(unsafe { File::from_raw_fd(data.borrow_fd().as_raw_fd()) });
 
         self.check_fd_flags(data.clone(), f.as_raw_fd(), flags)?;
-
-        let mut f = ManuallyDrop::new(f);
 
         w.write_from(&mut *f, size as usize, offset)
     }
